@@ -151,6 +151,13 @@ def rule_b(ctx: Context, R: Reporter):
                     f"(e.g. when no finite draw exists): a batch with -inf log-likelihoods is stored",
                 witness={"path": path, "skipped_when": skip_guard}, key=f"inf-mask-path-without-replacement[{skip_guard}]",
             )
+            # counted once *per batch that needs it*: whenever the mask is non-empty the batch's own fraction is recorded
+            wnodes = {flow.node_containing(a.call).id for a in ctx.state.in_func(fi, include_nested=False)
+                      if a.mode == "write" and a.key == "logz" and flow.node_containing(a.call) is not None}
+            skip = [ts for ts in true_succ if ts not in wnodes and (ts == cfg.exit.id or cfg.reaches(ts, cfg.exit.id, blocked=wnodes))]
+            R.check("C11.b", "every batch with zero-likelihood draws records its own supported fraction", bool(wnodes) and not skip, fi, t.ast,
+                    msg=f"{fi.short}: after `{unparse(t.ast)}` is true a path reaches the end of the function without writing `logz`: the unsupported fraction of that batch is not "
+                        f"counted (e.g. a correction applied on the first prior batch only misses later batches that contain -inf draws)", key="inf-mask-path-without-logz")
     R.floor("C11.b", "tests on the -inf mask", n, 1)
 
 
